@@ -761,13 +761,13 @@ def gen_multi_cases(ctx: Ctx):
                 present = [p for k, p in enumerate(pairs) if st >> k & 1]
                 bsubs = list(range(1 << nidx))
                 if nidx == 3:
-                    bsubs = [rng.randrange(1, 8), rng.randrange(0, 8)] if fn == "multi_solve" else [rng.randrange(1, 8)]
+                    bsubs = [7, rng.randrange(1, 8), rng.randrange(0, 8)] if fn == "multi_solve" else [rng.randrange(1, 8)]
                     sampled = True
                 for bs in bsubs:
                     bpresent = [nm for k, nm in enumerate(names) if bs >> k & 1]
                     for sr in SEMIRINGS:
                         for tr in (False, True):
-                            nrep = (2 if nidx == 3 else 6) if th else (3 if fn == "multi_solve" else 1)
+                            nrep = (3 if nidx == 3 else 6) if th else (3 if fn == "multi_solve" else 1)
                             for rep in range(nrep):
                                 shapes = [[nm, rng.choice(BLOCK_SHAPES)] for nm in names]
                                 types = {nm: dim_types(sh, rng) for nm, sh in shapes}
@@ -931,7 +931,7 @@ def run_bounded(ctx: Ctx) -> Report:
         for fn, d in r["digests"]: dig.setdefault(fn, set()).add(d)
         fails += r["fails"]; oos += r["oos"]; oos_samples += r["oos_samples"]
         for s in r["samples"]: samples.setdefault(s["fn"], []).append(s)
-    three = "1-3 block indices: all 2 / 16 structures for 1 / 2 indices, all 512 structures for 3 indices with 2 sampled subsets of b-blocks" \
+    three = "1-3 block indices: all 2 / 16 structures for 1 / 2 indices, all 512 structures for 3 indices with 3 subsets of b-blocks (all blocks + 2 sampled)" \
         if ctx.thorough else "1-2 block indices: all 2 / 16 structures x every subset of b-blocks"
     bounds = {
         "sr_solve": "n=1,2: every matrix over {0,1/4,1/2,1,2,inf} (b over {0,1,1/2,inf}, vector and n x 2; quick: 2 seeded b per matrix); "
